@@ -441,6 +441,7 @@ func runC02(p *Prog, r *Report) {
 		checkAuthLoop(p, r, al)
 	}
 	checkPolicyToNode(p, r)
+	checkEvaluatorFollowsTree(p, r)
 	checkScopeTables(p, r)
 	r.Floor("R2.1-no-early-exit", 2)
 	r.Floor("R2.2-classification", 6)
@@ -642,6 +643,7 @@ func checkAuthLoop(p *Prog, r *Report, al *authLoop) {
 
 	// R2.3 decision
 	checkDecision(p, r, al, forbidWeb, permitWeb)
+	checkErrorsReturnedWithDecision(p, r, al, errWeb)
 }
 
 // constOfType: c is a constant of named type n, or an untyped constant whose name carries the
@@ -1724,4 +1726,190 @@ func accumulatorBirth(w *webs, outer, fn *ssa.Function, v ssa.Value) (fresh bool
 		return false, "its origin (" + x.Name() + ") is not a local, empty list"
 	}
 	return rec(v, fn)
+}
+
+// R2.3 (errors travel with the decision): the Diagnostic handed back on every return is the object whose Errors field the
+// loop appended to. Building a fresh Diagnostic on one arm of the decision drops the collected errors on that arm.
+func checkErrorsReturnedWithDecision(p *Prog, r *Report, al *authLoop, errWeb any) {
+	const rule = "R2.3-decision"
+	outer := al.outer
+	name := al.name
+	// the object the errors are collected in
+	resolve := func(base ssa.Value, f *ssa.Function) ssa.Value {
+		if fv, ok := base.(*ssa.FreeVar); ok {
+			if mc := makeClosureOf(f); mc != nil {
+				for i, b := range f.FreeVars {
+					if b == fv && i < len(mc.Bindings) {
+						return baseOf(mc.Bindings[i])
+					}
+				}
+			}
+		}
+		return base
+	}
+	var errObj ssa.Value
+	for _, f := range withAnon(outer) {
+		forEachInstr(f, func(in ssa.Instruction) {
+			st, ok := in.(*ssa.Store)
+			if !ok || al.w.find(st.Val) != errWeb {
+				return
+			}
+			if fa, ok := st.Addr.(*ssa.FieldAddr); ok {
+				if _, fname := fieldAddrName(fa); fname == "Errors" {
+					errObj = resolve(baseOf(fa.X), f)
+				}
+			}
+		})
+	}
+	if errObj == nil {
+		r.Undec(rule, name+":errors-object", p.pos(outer.Pos()), "the Diagnostic whose Errors field collects the evaluation errors was not found")
+		return
+	}
+	n := 0
+	for _, b := range outer.Blocks {
+		ret, ok := lastInstr(b).(*ssa.Return)
+		if !ok || len(ret.Results) < 2 || !typeIs(ret.Results[1].Type(), pTypes, "Diagnostic") {
+			continue
+		}
+		n++
+		good := true
+		var visit func(v ssa.Value, d int)
+		visit = func(v ssa.Value, d int) {
+			if d > 4 {
+				good = false
+				return
+			}
+			switch x := v.(type) {
+			case *ssa.UnOp:
+				if x.Op == token.MUL && baseOf(x.X) == errObj {
+					return
+				}
+				// another Diagnostic that was given the collected errors
+				if al2, ok := baseOf(x.X).(*ssa.Alloc); ok && x.Op == token.MUL && al2.Referrers() != nil {
+					for _, rf := range *al2.Referrers() {
+						fa, ok := rf.(*ssa.FieldAddr)
+						if !ok || fa.Referrers() == nil {
+							continue
+						}
+						if _, fname := fieldAddrName(fa); fname != "Errors" {
+							continue
+						}
+						for _, u := range *fa.Referrers() {
+							if st, ok := u.(*ssa.Store); ok && st.Addr == ssa.Value(fa) && al.w.find(st.Val) == errWeb {
+								return
+							}
+						}
+					}
+				}
+				good = false
+			case *ssa.Phi:
+				for _, e := range x.Edges {
+					visit(e, d+1)
+				}
+			default:
+				good = false
+			}
+		}
+		visit(retVal(ret, 1), 0)
+		r.Check(good, rule, name+":errors-travel-with-decision@"+itoa(n), p.pos(ret.Pos()), "the returned Diagnostic is the one the errors were collected in",
+			"this return hands back a Diagnostic other than the one whose Errors field the loop appended to: the evaluation errors are lost on this arm of the decision")
+	}
+	if n == 0 {
+		r.Undec(rule, name+":errors-travel-with-decision", p.pos(outer.Pos()), "no return of a Diagnostic found")
+	}
+}
+
+// R2.4 (the evaluator follows the syntax tree): a cedar.Policy carries its syntax tree and the evaluator compiled from it.
+// Authorize runs the evaluator; everything else (Effect, Position, marshalling, AST) reads the tree. They describe the same
+// policy only if every write of the tree field is accompanied, in the same function and on the same object, by a write of
+// the evaluator field with eval.Compile of that very tree. A decoder that replaces the tree alone leaves a policy that
+// prints as the new text and decides as the old one.
+func checkEvaluatorFollowsTree(p *Prog, r *Report) {
+	const rule = "R2.4-conjunction"
+	pt := p.namedType(pRoot, "Policy")
+	if pt == nil {
+		r.Anchor(rule, "cedar.Policy")
+		return
+	}
+	st, ok := pt.Underlying().(*types.Struct)
+	if !ok {
+		r.Anchor(rule, "cedar.Policy struct")
+		return
+	}
+	astF, evalF := -1, -1
+	for i := 0; i < st.NumFields(); i++ {
+		ft := st.Field(i).Type()
+		if pp, ok := ft.Underlying().(*types.Pointer); ok && typeIs(pp.Elem(), pXAst, "Policy") {
+			astF = i
+		}
+		if typeIs(ft, pEval, "BoolEvaler") {
+			evalF = i
+		}
+	}
+	if astF < 0 || evalF < 0 {
+		r.Anchor(rule, "cedar.Policy fields (syntax tree, compiled evaluator)")
+		return
+	}
+	n := 0
+	for _, fn := range p.Funcs {
+		if fnPkgPath(fn) != pRoot || len(fn.Blocks) == 0 {
+			continue
+		}
+		type wr struct {
+			st   *ssa.Store
+			base ssa.Value
+		}
+		var astW, evalW []wr
+		forEachInstr(fn, func(in ssa.Instruction) {
+			s, ok := in.(*ssa.Store)
+			if !ok {
+				return
+			}
+			fa, ok := s.Addr.(*ssa.FieldAddr)
+			if !ok {
+				return
+			}
+			pp, ok := fa.X.Type().Underlying().(*types.Pointer)
+			if !ok || !types.Identical(pp.Elem(), pt) {
+				return
+			}
+			if fa.Field == astF {
+				astW = append(astW, wr{s, fa.X})
+			}
+			if fa.Field == evalF {
+				evalW = append(evalW, wr{s, fa.X})
+			}
+		})
+		for _, a := range astW {
+			n++
+			good := false
+			if al, ok := a.base.(*ssa.Alloc); ok && len(evalW) == 0 {
+				// a Policy born here without an evaluator (compiled later, on demand): nothing stale to keep. What must
+				// not happen is the replacement of the tree of a Policy that may already have been compiled.
+				_ = al
+				r.OK(rule, fnQual(fn)+":tree-write", p.pos(a.st.Pos()), "the syntax tree of a Policy created here (no evaluator exists yet)")
+				continue
+			}
+			for _, e := range evalW {
+				if e.base != a.base {
+					continue
+				}
+				if c, ok := e.st.Val.(*ssa.Call); ok && c.Call.StaticCallee() != nil && fnPkgPath(c.Call.StaticCallee()) == pEval && c.Call.StaticCallee().Name() == "Compile" && len(c.Call.Args) == 1 {
+					arg := c.Call.Args[0]
+					if arg == a.st.Val {
+						good = true
+					}
+					// or the tree read back from the field just written
+					if ld, ok := arg.(*ssa.UnOp); ok && ld.Op == token.MUL {
+						if fa, ok := ld.X.(*ssa.FieldAddr); ok && fa.X == a.base && fa.Field == astF && instrDominates(a.st, ld) {
+							good = true
+						}
+					}
+				}
+			}
+			r.Check(good, rule, fnQual(fn)+":tree-write", p.pos(a.st.Pos()), "the syntax tree is written together with the evaluator compiled from it",
+				fnQual(fn)+" writes a Policy's syntax tree without writing, on the same object, the evaluator compiled from that tree (eval.Compile): the policy then reads as one text and is decided by another (or by none)")
+		}
+	}
+	r.Check(n >= 1, rule, "cedar.Policy:tree-writes", "-", itoa(n)+" write(s) of a Policy's syntax tree, each paired with its evaluator", "no write of cedar.Policy's syntax tree field was found (anchor lost)")
 }
